@@ -370,7 +370,8 @@ S4 = {
          "contract-based deductive verification of writer and reader (external I/O opaque, column offsets as ghost prefix sums) + structural obligations + bounded native round trips"),
  "C14": ("Also proved (session 4): montecarlo_fn for the four generator / spatial combinations - one row of draws per generator (rng.normal opaque, call counter as ghost state), the "
          "space conversion (exp / log / none), _statistics on the realisations in the spatial space with the caller's weights (through an extensionality instance of its contract), mean "
-         "returned in linear space, realisations returned in linear space; NotImplementedError for other names.", None, None),
+         "returned in linear space, realisations returned in linear space; NotImplementedError for other names. HvsrSpatial._cull_points keeps exactly the sensors the boundary contains, in order, and "
+         "returns their positions in `coordinates` (kept-count ghost function; shapely's contains opaque); _voronoi_weights = cell area / boundary area with the indices handed on (areas opaque).", None, None),
  "C15": ("Also proved (session 4): read_settings_object_from_file for 12 stored discriminators (a default-constructed object of the class named, which then loads the same file; "
          "NotImplementedError otherwise), Settings.save (json.dump receives attr_dict), Settings.load (every stored entry, nulls and nested dictionaries included, becomes the attribute "
          "of that name; others untouched). Bounded addition: nearly geometric centre-frequency vectors.", None,
@@ -387,7 +388,10 @@ S4 = {
  "C20": ("Also proved (session 4), Axes / pandas as recorders and the accessors opaque: _plot_mean_hvsr_curve, _plot_nth_std_hvsr_curve, _plot_peak_mean_hvsr_curve, "
          "_plot_nth_std_frequency_range draw the accessor the statement names for the distribution asked for; plot_single_panel_hvsr_curves calls every helper once with the option that "
          "belongs to it (distribution_mc for curves and the mean-curve peak, distribution_fn for the fn band); summarize_hvsr_statistics tabulates the object's fn statistics, the period "
-         "row holding the reciprocal median and the same log-standard deviation. Bounded addition: contour markers with a bounded search range.", None,
+         "row holding the reciprocal median and the same log-standard deviation; _plot_individual_hvsr_curves draws one line per selected window (window mask / its complement), in order, each "
+         "carrying that window's curve against the object's frequency vector; _plot_peak_individual_hvsr_curve draws the peaks selected by the peak mask / its complement, nothing when "
+         "none; plot_pre_and_post_rejection shows the first panel all windows and peaks accepted, the second the object's own masks, and leaves both masks with their content at entry on "
+         "the normal exit and when a panel raises (try/finally executed symbolically; the repaired defect F-13 is a post-on-raise obligation). Bounded addition: contour markers with a bounded search range.", None,
          "frame/ownership obligations by may-alias analysis + contract proofs of the drawing helpers, the single-panel driver and the summary table + structural routing obligations + bounded inspection of rendered artists"),
  "C02": ("Bounded addition (session 4): band-limited frequency axes whose first sample is a genuine spectral sample.", None, None),
  "C04": ("Bounded addition (session 4): azimuth lists in any order and with repeated values.", None, None),
@@ -415,10 +419,11 @@ S4_ASSUME = {
  "C12": ["np.savetxt / np.loadtxt / json.dumps / json.loads / open opaque: the models record what they are handed resp. return 'the file's array / dictionary'", "strings opaque; the title line has one entry per column (A-TEXT-ROUNDTRIP)",
          "the azimuth in a column title is an uninterpreted function of the column (A-RE)", "update_peaks_bounded on the freshly read object: range / filters recorded, masks afterwards unknown (contract: C08)",
          "type invariant of per-azimuth objects (vectors / masks / rows have one entry per curve, one column per frequency)", "A-INDUCTION for the column offsets"],
- "C14": ["A-RNG: rng.normal(mean, std, size=n) is an opaque array of the call's position and arguments", "A-EXT: _statistics reads rows < K and columns < N only (its contract), instantiated for the array handed over"],
+ "C14": ["A-RNG: rng.normal(mean, std, size=n) is an opaque array of the call's position and arguments", "A-EXT: _statistics reads rows < K and columns < N only (its contract), instantiated for the array handed over",
+         "shapely Point / contains / Polygon.area and the tessellation opaque in _cull_points / _voronoi_weights"],
  "C15": ["json / open opaque", "settings constructors with no arguments give default objects (their attribute lists: structural obligations)"],
  "C17": ["np.mean of the squared taper = TAPER_MEAN_SQUARE(length, width) > 0", "per-component stages of psd_preprocess (_remove_instrument_response, _differentiate) opaque functions of (content, transfer function / FFT length)"],
  "C18": ["json / open opaque"],
  "C19": ["hvsrpy.read / preprocess / process / write_hvsr_object_to_file opaque stages (their contracts: C07, C10/C17, C01..C05, C12)", "deepcopy preserves content", "pathlib.Path(fname).stem + '.csv' as an uninterpreted function of the file name"],
- "C20": ["matplotlib Axes and pandas as recorders of what they are handed", "statistics accessors opaque functions of (object, distribution, n) (contracts: C05, C08, C11)"],
+ "C20": ["matplotlib Axes and pandas as recorders of what they are handed", "plot_single_panel_hvsr_curves may raise ValueError at any call (nondeterministic) in the pre/post proof", "A-NP-WHERE for the enumeration of selected rows", "statistics accessors opaque functions of (object, distribution, n) (contracts: C05, C08, C11)"],
 }
